@@ -2,9 +2,9 @@ import OntVerif.Model.ConnCtl
 /-!
 # Invariant of the repaired connection controller (C36)
 
-`InvC` is the inductive invariant of `step` (both variants of the stale-close behaviour): established + reserved slots (+1 while a passed check holds
+`InvC` is the inductive invariant of `step`: established + reserved slots (+1 while a passed check holds
 `reserveMu` and has not yet recorded its reservation) never exceed the limits, in total per direction and per remote
-ip; every thread in its handshake owns a reservation and no two of them share an address.  `step_sound_inv` shows
+ip; every thread in its handshake owns a reservation and no two of them share an address.  `step_inv` shows
 that every atomic action of every thread preserves it — hence it holds after every schedule.
 -/
 namespace OntVerif.Proofs.ConnCtl
@@ -491,7 +491,7 @@ theorem upd_del_ins {p : Dir → List Addr} {d : Dir} {a : Addr} (h : a ∉ p d)
   · subst e; rw [upd_same, upd_same, del_ins_of_not_mem h]
   · rw [upd_other _ e, upd_other _ e]
 
-theorem step_inv (v : Variant) {s : State} (h : Inv s) (i : Nat) : Inv (step v s i) := by
+theorem step_inv {s : State} (h : Inv s) (i : Nat) : Inv (step s i) := by
   unfold step stepR
   cases ht : s.threads[i]? with
   | none => exact h
@@ -563,23 +563,16 @@ theorem step_inv (v : Variant) {s : State} (h : Inv s) (i : Nat) : Inv (step v s
       exact h1
     | closed =>
       simp only []
-      split
-      · exact h
-      · cases v with
-        | sound => exact h
-        | asShipped =>
-          -- a stale Close() only removes: the counters can only go down
-          simp only [Inv, removePeer_cfg, removePeer_threads, removePeer_pend, removePeer_lock, removePeer_bound]
-          exact InvC.shrinkBound h _ (close_len _ _ _) (close_cnt _ _ _)
+      split <;> exact h
 
 
-theorem step_cfg (v : Variant) (s : State) (i : Nat) : (step v s i).cfg = s.cfg := by
+theorem step_cfg (s : State) (i : Nat) : (step s i).cfg = s.cfg := by
   unfold step stepR
   cases s.threads[i]? with
   | none => rfl
   | some t =>
     simp only []
-    cases t.pc <;> cases v <;> simp only [] <;> (repeat' split) <;> simp [setPc, setThread]
+    cases t.pc <;> simp only [] <;> (repeat' split) <;> simp [setPc, setThread]
 
 theorem inv_init (cfg : Cfg) (ths : List Thread) (h : ∀ t ∈ ths, t.pc = .start) : Inv (init cfg ths) := by
   have hstart : ∀ (i : Nat) (t : Thread), ths[i]? = some t → t.pc = .start := fun i t hi =>
@@ -593,10 +586,10 @@ theorem inv_init (cfg : Cfg) (ths : List Thread) (h : ∀ t ∈ ths, t.pc = .sta
   · intro i j t u hi _ _ hpc; simp [init] at hi; rw [hstart i t hi] at hpc; cases hpc
   · intro i t hi hpc; simp [init] at hi; rw [hstart i t hi] at hpc; cases hpc
 
-theorem run_inv (v : Variant) {s : State} (h : Inv s) (sched : List Nat) : Inv (run v s sched) := by
+theorem run_inv {s : State} (h : Inv s) (sched : List Nat) : Inv (run s sched) := by
   induction sched generalizing s with
   | nil => exact h
-  | cons i r ih => exact ih (step_inv v h i)
+  | cons i r ih => exact ih (step_inv h i)
 
 /-- established + reserved ≤ limit, for every direction and every remote ip -/
 theorem Inv.reserved_le {s : State} (h : Inv s) :
@@ -772,8 +765,8 @@ theorem check_none_bound {s : State} {t : Thread} (h : check s t = none) :
 
 def InvF (s : State) : Prop := Inv s ∧ InvE s.threads s.bound
 
-theorem step_sound_invE {s : State} (h : Inv s) (e : InvE s.threads s.bound) (i : Nat) :
-    InvE (step .sound s i).threads (step .sound s i).bound := by
+theorem step_invE {s : State} (h : Inv s) (e : InvE s.threads s.bound) (i : Nat) :
+    InvE (step s i).threads (step s i).bound := by
   unfold step stepR
   cases ht : s.threads[i]? with
   | none => exact e
@@ -826,7 +819,7 @@ theorem step_sound_invE {s : State} (h : Inv s) (e : InvE s.threads s.bound) (i 
       simp only [setPc, setThread, removePeer_threads, removePeer_bound]
       exact h1
     | closed =>
-      -- `.sound`: a repeated Close() of a stale handle does nothing
+      -- a repeated Close() of a stale handle does nothing (closeOnce)
       simp only []
       split <;> exact e
 
@@ -840,13 +833,13 @@ theorem invE_init (cfg : Cfg) (ths : List Thread) (h : ∀ t ∈ ths, t.pc = .st
   · intro i t hi hpc; simp [init] at hi; rw [hstart i t hi] at hpc; cases hpc
   · intro i t hi hpc; simp [init] at hi; rw [hstart i t hi] at hpc; cases hpc
 
-theorem step_sound_invF {s : State} (h : InvF s) (i : Nat) : InvF (step .sound s i) :=
-  ⟨step_inv .sound h.1 i, step_sound_invE h.1 h.2 i⟩
+theorem step_invF {s : State} (h : InvF s) (i : Nat) : InvF (step s i) :=
+  ⟨step_inv h.1 i, step_invE h.1 h.2 i⟩
 
-theorem run_sound_invF {s : State} (h : InvF s) (sched : List Nat) : InvF (run .sound s sched) := by
+theorem run_invF {s : State} (h : InvF s) (sched : List Nat) : InvF (run s sched) := by
   induction sched generalizing s with
   | nil => exact h
-  | cons i r ih => exact ih (step_sound_invF h i)
+  | cons i r ih => exact ih (step_invF h i)
 
 theorem InvE.established_le {s : State} (e : InvE s.threads s.bound) (d : Dir) :
     established s d ≤ (s.bound d).length := by
@@ -873,30 +866,5 @@ theorem InvE.establishedIp_le {s : State} (e : InvE s.threads s.bound) (ip : Nat
     simp only [decide_eq_true_eq] at hp hq
     exact e.su i j t u hi hj hij hp.2.1 hq.2.1 (hp.1.trans hq.1.symm)
 
-
-/-! ### Without a repeated `Close()` the two variants are the same controller -/
-
-theorem step_eq_of_not_stale {s : State} {i : Nat} (h : staleStep s i = false) :
-    step .asShipped s i = step .sound s i := by
-  unfold step stepR
-  unfold staleStep at h
-  cases ht : s.threads[i]? with
-  | none => rfl
-  | some t =>
-    rw [ht] at h
-    simp only []
-    cases hpc : t.pc <;> simp only []
-    -- only the `closed` case mentions the variant
-    simp only [hpc, decide_eq_false_iff_not, not_and, true_implies, Decidable.not_not] at h
-    simp [h]
-
-theorem run_eq_of_staleFree {s : State} {sched : List Nat} (h : StaleFreeRun .asShipped s sched) :
-    run .asShipped s sched = run .sound s sched := by
-  induction sched generalizing s with
-  | nil => rfl
-  | cons i r ih =>
-    show run .asShipped (step .asShipped s i) r = run .sound (step .sound s i) r
-    rw [← step_eq_of_not_stale h.1]
-    exact ih h.2
 
 end OntVerif.Proofs.ConnCtl
